@@ -1,0 +1,30 @@
+// -*- Mode: Go; indent-tabs-mode: t -*-
+//go:build !verif
+
+/*
+ * Copyright (C) 2026 Canonical Ltd
+ *
+ * This program is free software: you can redistribute it and/or modify
+ * it under the terms of the GNU General Public License version 3 as
+ * published by the Free Software Foundation.
+ *
+ * This program is distributed in the hope that it will be useful,
+ * but WITHOUT ANY WARRANTY; without even the implied warranty of
+ * MERCHANTABILITY or FITNESS FOR A PARTICULAR PURPOSE.  See the
+ * GNU General Public License for more details.
+ *
+ * You should have received a copy of the GNU General Public License
+ * along with this program.  If not, see <http://www.gnu.org/licenses/>.
+ *
+ */
+
+package ctlcmd
+
+import (
+	"github.com/jessevdk/go-flags"
+)
+
+// verifInstrumentParser is the call site of runtime-monitoring hook H1. It
+// does nothing unless snapd is built with the "verif" build tag (see
+// ctlcmd_verif.go).
+func verifInstrumentParser(*flags.Parser) {}
